@@ -3,6 +3,7 @@
 set -u
 ID=$1; shift; PROPS="$@"
 OUT=/verif/seeded/$ID
+export VERIF_OUT=/tmp/verif_mutant_out   # evidence / replays of runs against a seeded change never overwrite /verif/evidence
 if ! git -C /repo diff --quiet -- xenium; then echo "/repo has uncommitted changes under xenium/: refusing"; exit 2; fi
 git -C /repo apply $OUT/patch.diff || { echo "patch does not apply to /repo"; exit 2; }
 : > $OUT/check_results.txt
